@@ -260,6 +260,7 @@ class SamplerCore:
 
         # Add sampler metadata
         d["random_state"] = self.config.random_state
+        d["rng_state"] = np.random.get_state()
         d["n_total"] = getattr(self, "n_total", None)
         d["logz_err"] = getattr(self, "logz_err", None)
 
@@ -323,8 +324,12 @@ class SamplerCore:
         if "logz_err" in d:
             self.logz_err = d["logz_err"]
 
-        # Set random seed
-        if "random_state" in d and d["random_state"] is not None:
+        # Continue the random stream where the checkpoint left it; rewinding it to
+        # the seed would make a resumed run replay the random numbers (and hence the
+        # prior draws) of its first iterations
+        if d.get("rng_state") is not None:
+            np.random.set_state(d["rng_state"])
+        elif "random_state" in d and d["random_state"] is not None:
             np.random.seed(d["random_state"])
 
     def _log_like(self, x):
